@@ -431,6 +431,24 @@ def restore (cfg : Cfg) (s : State) (snap : Snap) : State :=
   let s1 := snap.streams.foldl (fun s sp => addStream cfg s sp true 0) s0
   snap.groups.foldl (fun s gp => addGroup s gp true) s1
 
+/-- `metadataAPI.Reset` as the code has it: a field of the store is emptied iff Reset re-makes it
+(regenerated list `Gen.Metadata.resetClears`); a consumer group that stays registered has been
+`Close()`d, which empties its member set. -/
+def resetState (s : State) : State :=
+  { s with
+    streams := if "m.streams" ∈ Gen.Metadata.resetClears then [] else s.streams,
+    groups := if "m.consumerGroups" ∈ Gen.Metadata.resetClears then [] else s.groups.map ({ · with members := [] }) }
+
+/-- `Server.Restore` on a RUNNING server in state `s` (a snapshot installed on a lagging follower):
+`Reset()` as the code has it, then the snapshot's streams and groups are re-added. -/
+def install (cfg : Cfg) (s : State) (snap : Snap) : State :=
+  let s1 := snap.streams.foldl (fun s sp => addStream cfg s sp true 0) (resetState s)
+  snap.groups.foldl (fun s gp => addGroup s gp true) s1
+
+/-- `applyCreateConsumerGroup` refuses an id that is still registered: the first error of an install. -/
+def installErr (s : State) (snap : Snap) : Option String :=
+  if snap.groups.any (fun gp => (resetState s).groups.any (·.id == gp.id)) then some "group-exists" else none
+
 /-- The first error `Restore` would return. -/
 def restoreErr (snap : Snap) : Option String :=
   let go := snap.streams.foldl (fun (acc : State × Option String) sp =>
